@@ -278,9 +278,9 @@ CATALOG = [
 # target column of [table] in coq/Model/DiagMap.v: a parse-stage code D_.. or a kind of Model/AnalysisDiag.v) - a
 # stable name: not a line number (those of `src` are names; the analysis ones are the numbering of 17e6a01 that
 # Model/AnalysisDiag.v uses) and not the wording of the message (rewording is harmless).
-# [inventory_cross_check] holds the severity and stage of every catalogue entry against the PINNED table - the keys
-# of Model/DiagMap.v, proved to be the list in the statement of C07_diag_inventory (C07_diag_table_keys) - never
-# against the tree being judged: when the code changes a severity, the regenerated inventory differs from the pinned
+# [inventory_cross_check] holds the severity and stage of every catalogue entry against the PINNED rows - per
+# (stage, file) the set of (severity, constructor) in the statement of C07_diag_inventory - never against the tree
+# being judged: when the code changes a severity, the regenerated inventory differs from the pinned
 # list (reported by checks/c07.py) while the monitor keeps expecting the pinned severity and so finds the inputs on
 # which the code now answers otherwise.
 SRC_DIAG = {
@@ -332,12 +332,12 @@ INTER_CASES_SRC = EC_RS + ":830"
 SEV_NAME = {"e": "Error", "w": "Warning"}
 
 
-def inventory_cross_check(table):
-    """table: [(key, constructor text)] of Model/DiagMap.v (gen_diags.pinned_table()), key = (stage, file, fn, how,
-    severity, pushes, ordinal).  -> (number of catalogue entries held against it, list of disagreements)"""
+def inventory_cross_check(rows):
+    """rows: the pinned rows (stage, file stem, severity, constructor, _) in the statement of C07_diag_inventory
+    (gen_diags.expected_summary()).  -> (number of catalogue entries held against them, list of disagreements)"""
     by_ctor = {}
-    for key, ctor in table or []:
-        by_ctor.setdefault(ctor, []).append(key)
+    for stage, file, sev, ctor, _ in rows or []:
+        by_ctor.setdefault(ctor, []).append((stage, file, sev))
     bad, n = [], 0
     for en in CATALOG + [Entry("inter_cases", "out-of-range intermediate reference", "", "e", "Analysis", X_INTER,
                                INTER_CASES_SRC)]:
@@ -345,18 +345,18 @@ def inventory_cross_check(table):
         if ctor is None:
             bad.append("catalogue entry %s: its source %s names no constructor (SRC_DIAG)" % (en.id, en.src))
             continue
-        keys = by_ctor.get(ctor)
-        if not keys:
-            bad.append("catalogue entry %s (%s): no row of the table of Model/DiagMap.v maps to %s" % (en.id, en.src, ctor))
+        pinned = by_ctor.get(ctor)
+        if not pinned:
+            bad.append("catalogue entry %s (%s): no row of C07_diag_inventory has the constructor %s" % (en.id, en.src, ctor))
             continue
         n += 1
-        for stage, file, fn, how, sev, pushes, ordn in keys:
+        for stage, file, sev in pinned:
             if stage != en.stage:
-                bad.append("catalogue entry %s expects stage %s, the pinned table says %s for %s (fn %s #%d of %s.rs)"
-                           % (en.id, en.stage, stage, ctor, fn, ordn, file))
+                bad.append("catalogue entry %s expects stage %s, the pinned rows say %s for %s (%s.rs)"
+                           % (en.id, en.stage, stage, ctor, file))
             if sev != SEV_NAME[en.sev]:
-                bad.append("catalogue entry %s expects severity %s, the pinned table says %s for %s (fn %s #%d of %s.rs)"
-                           % (en.id, SEV_NAME[en.sev], sev, ctor, fn, ordn, file))
+                bad.append("catalogue entry %s expects severity %s, the pinned rows say %s for %s (%s.rs)"
+                           % (en.id, SEV_NAME[en.sev], sev, ctor, file))
     return n, bad
 
 
